@@ -1,5 +1,3 @@
-//go:build wip
-
 package props
 
 // C16 — bulk requirement and use setters produce exactly the requested set.
@@ -152,16 +150,20 @@ func goAtLeast121(v string) bool {
 	return maj > 1 || (maj == 1 && min >= 21)
 }
 
+var goPreRE = regexp.MustCompile(`[a-z]`)
+
 // c16Sorted: every block of the result is sorted by its documented comparator.
-func c16Sorted(c editCase) string {
+// shape "K7": exclude block of a file whose go version carries a pre-release suffix
+// (SortBlocks compares "v"+version as a semantic version, which such versions are not).
+func c16Sorted(c editCase) (msg string, shape string) {
 	run, err := editExec(c)
 	if err != nil || run.panicAt >= 0 {
-		return ""
+		return "", ""
 	}
 	out := modfile.Format(run.st.syntax())
 	st2, err := editParse(c.Work, out)
 	if err != nil {
-		return ""
+		return "", ""
 	}
 	gov := ""
 	if st2.f != nil && st2.f.Go != nil {
@@ -181,11 +183,15 @@ func c16Sorted(c editCase) string {
 		}
 		for i := 0; i+1 < len(b.Line); i++ {
 			if less(b.Line[i+1].Token, b.Line[i].Token) {
-				return fmt.Sprintf("%s block not in %s order: %q before %q\noutput:\n%s", b.Token[0], name, b.Line[i].Token, b.Line[i+1].Token, out)
+				shape := ""
+				if name == "path-then-semver" && goPreRE.MatchString(gov) {
+					shape = "K7"
+				}
+				return fmt.Sprintf("%s block not in %s order: %q before %q\noutput:\n%s", b.Token[0], name, b.Line[i].Token, b.Line[i+1].Token, out), shape
 			}
 		}
 	}
-	return ""
+	return "", ""
 }
 
 var tagRE = regexp.MustCompile(`c[0-9]+`)
@@ -433,8 +439,8 @@ func runC16(c *hx.Ctx) {
 		msg := c16Exact(ec)
 		c.Check("exact-set", msg == "", "", k, msg)
 		k.Probe = "sorted"
-		msg = c16Sorted(ec)
-		c.Check("blocks-sorted", msg == "", "", k, msg)
+		msg, shape := c16Sorted(ec)
+		c.Check("blocks-sorted", msg == "", shape, k, msg)
 		k.Probe = "comments"
 		msg = c16Comments(ec)
 		c.Check("kept-comments-survive", msg == "", "", k, msg)
@@ -454,7 +460,7 @@ func replayC16(raw json.RawMessage) (bool, string) {
 	var msg string
 	switch ec.Probe {
 	case "sorted":
-		msg = c16Sorted(ec)
+		msg, _ = c16Sorted(ec)
 	case "comments":
 		msg = c16Comments(ec)
 	case "twoblocks":
